@@ -95,7 +95,9 @@ func stmtDescriptors(fn *ssa.Function) []string {
 }
 
 type siblingMember struct {
-	generated bool // defined in a file carrying the "Code generated ... DO NOT EDIT" header
+	vocab     map[string]bool // operations reached (see vocabOf)
+	mods      map[string]bool // caller-visible locations written (filled lazily)
+	generated bool            // defined in a file carrying the "Code generated ... DO NOT EDIT" header
 	pkg       string
 	key       string // function key inside the family (group-normalised)
 	fn        *ssa.Function
@@ -141,7 +143,7 @@ func siblingIndexOf(p *Program) *siblingIndex {
 		name = reGroup.ReplaceAllString(name, "${1}N$2")
 		d := stmtDescriptors(fn)
 		h := sha256.Sum256([]byte(strings.Join(d, "\n")))
-		m := &siblingMember{pkg: pk, key: name, fn: fn, desc: d, hash: fmt.Sprintf("%x", h[:8]), generated: inGeneratedFile(p, fn)}
+		m := &siblingMember{pkg: pk, key: name, fn: fn, desc: d, hash: fmt.Sprintf("%x", h[:8]), generated: inGeneratedFile(p, fn), vocab: vocabOf(fn, opaqueIn(fam, pk))}
 		if idx.fams[fam] == nil {
 			idx.fams[fam] = map[string][]*siblingMember{}
 		}
@@ -186,44 +188,234 @@ func SiblingCheck(c *Ctx, p *Program, rule string, famPatterns []string, nameFil
 			if len(ms) < 4 {
 				continue
 			}
-			groups := map[string][]*siblingMember{}
-			for _, m := range ms {
-				groups[m.hash] = append(groups[m.hash], m)
-			}
-			// majority group
-			var major []*siblingMember
-			for _, g := range groups {
-				if len(g) > len(major) {
-					major = g
-				}
-			}
 			c.Instance(rule, 1)
-			if len(major)*2 <= len(ms) || len(major) < 3 {
-				continue // no strict majority: the family is genuinely heterogeneous
-			}
+			eff := sharedEffects(p)
 			for _, m := range ms {
-				if m.hash == major[0].hash {
-					c.Ob(rule, m.pkg, m.pkg+"."+m.key, "agrees-with-siblings", p.Pos(m.fn.Pos()), true, "")
-					continue
+				if m.mods == nil {
+					m.mods = modsOf(eff, m.fn)
 				}
-				if _, ok := siblingVariants[fam+"|"+name+"|"+m.pkg]; ok {
-					continue
+			}
+			decide := func(aspect string, sig func(m *siblingMember) map[string]bool, lacksOnly bool) {
+				groups := map[string][]*siblingMember{}
+				keys := map[*siblingMember]string{}
+				for _, m := range ms {
+					keys[m] = strings.Join(sortedKeys(sig(m)), "\n")
+					groups[keys[m]] = append(groups[keys[m]], m)
 				}
-				// a deviating group of more than one member is a template variant, not a slip
-				if len(groups[m.hash]) > 1 {
-					continue
+				var major []*siblingMember
+				for _, g := range groups {
+					if len(g) > len(major) || (len(g) == len(major) && len(major) > 0 && g[0].pkg < major[0].pkg) {
+						major = g
+					}
 				}
-				// hand-written files take part in the comparison but are free to differ: the rule is
-				// "a generated file is an instantiation of its template", not "all code looks alike"
-				if !m.generated {
-					continue
+				if len(major)*2 <= len(ms) || len(major) < 3 {
+					return // no strict majority: the family is genuinely heterogeneous in this aspect
 				}
-				missing, extra := multisetDiff(major[0].desc, m.desc)
-				msg := fmt.Sprintf("%s.%s differs from its %d siblings that agree with each other (%s, …): it lacks [%s] and has instead [%s]", m.pkg, m.key, len(major), major[0].pkg, strings.Join(clip(missing, 3), " ; "), strings.Join(clip(extra, 3), " ; "))
-				c.Ob(rule, m.pkg, m.pkg+"."+m.key, "agrees-with-siblings", p.Pos(m.fn.Pos()), false, msg)
+				con := aspect + "-agree-with-siblings"
+				for _, m := range ms {
+					if keys[m] == keys[major[0]] {
+						c.Ob(rule, m.pkg, m.pkg+"."+m.key, con, p.Pos(m.fn.Pos()), true, "")
+						continue
+					}
+					if _, ok := siblingVariants[fam+"|"+name+"|"+m.pkg]; ok {
+						continue
+					}
+					if len(groups[keys[m]]) > 1 {
+						continue // a deviating group of more than one member is a template variant, not a slip
+					}
+					if !m.generated {
+						continue // hand-written files take part in the comparison but are free to differ
+					}
+					var lacks, extra []string
+					for k := range sig(major[0]) {
+						if !sig(m)[k] {
+							lacks = append(lacks, k)
+						}
+					}
+					for k := range sig(m) {
+						if !sig(major[0])[k] {
+							extra = append(extra, k)
+						}
+					}
+					sort.Strings(lacks)
+					sort.Strings(extra)
+					if len(lacks) == 0 && (lacksOnly || len(extra) == 0) {
+						c.Ob(rule, m.pkg, m.pkg+"."+m.key, con, p.Pos(m.fn.Pos()), true, "")
+						continue
+					}
+					msg := fmt.Sprintf("%s.%s differs from its %d siblings that agree with each other (%s, …) in its %s: it lacks [%s]", m.pkg, m.key, len(major), major[0].pkg, aspect, strings.Join(clip(lacks, 6), " ; "))
+					if !lacksOnly {
+						msg += fmt.Sprintf(" and has in addition [%s]", strings.Join(clip(extra, 6), " ; "))
+					}
+					c.Ob(rule, m.pkg, m.pkg+"."+m.key, con, p.Pos(m.fn.Pos()), false, msg)
+				}
+			}
+			decide("operations", func(m *siblingMember) map[string]bool { return m.vocab }, true)
+			decide("effects", func(m *siblingMember) map[string]bool { return m.mods }, false)
+			// informational: exact statement multisets
+			{
+				groups := map[string][]*siblingMember{}
+				for _, m := range ms {
+					groups[m.hash] = append(groups[m.hash], m)
+				}
+				var major []*siblingMember
+				for _, g := range groups {
+					if len(g) > len(major) {
+						major = g
+					}
+				}
+				if len(major)*2 > len(ms) && len(major) >= 3 {
+					for _, m := range ms {
+						if m.hash != major[0].hash && len(groups[m.hash]) == 1 && m.generated {
+							if _, ok := siblingVariants[fam+"|"+name+"|"+m.pkg]; !ok {
+								missing, extra := multisetDiff(major[0].desc, m.desc)
+								c.Note(fmt.Sprintf("shape of %s.%s differs from its %d agreeing siblings (informational, decides nothing): -%d +%d statements", m.pkg, m.key, len(major), len(missing), len(extra)))
+							}
+						}
+					}
+				}
 			}
 		}
 	}
+}
+
+// vocabOf: the operations fn reaches. Calls into functions and closures of fn's own package that
+// themselves call something are looked through (bounded depth); what is recorded are the ends of
+// that walk: callees of other packages, body-less (assembly) functions, call-free functions of the
+// package, interface methods, and panic.
+func vocabOf(fn *ssa.Function, opaque func(callee *ssa.Function) bool) map[string]bool {
+	out := map[string]bool{}
+	seen := map[*ssa.Function]bool{}
+	home := fnPkgPath(fn)
+	var visit func(f *ssa.Function, depth int)
+	record := func(cc *ssa.CallCommon) {
+		out[normSibling(descCallee(calleeOf(cc)))] = true
+	}
+	visit = func(f *ssa.Function, depth int) {
+		if f == nil || seen[f] || depth > 6 {
+			return
+		}
+		seen[f] = true
+		for _, b := range f.Blocks {
+			for _, in := range b.Instrs {
+				switch x := in.(type) {
+				case *ssa.MakeClosure:
+					if g, ok := x.Fn.(*ssa.Function); ok {
+						visit(g, depth+1)
+					}
+				case *ssa.Panic:
+					out["panic"] = true
+				case ssa.CallInstruction:
+					cc := x.Common()
+					if cc.IsInvoke() {
+						record(cc)
+						continue
+					}
+					if _, ok := cc.Value.(*ssa.Builtin); ok {
+						continue
+					}
+					callee := cc.StaticCallee()
+					if callee == nil {
+						continue // call of a function value: its creation site is looked through
+					}
+					if o := callee.Origin(); o != nil {
+						callee = o
+					}
+					if fnPkgPath(callee) == home && callee.Blocks == nil {
+						continue // assembly stub: the Go/assembly split is C09's subject, not a difference between siblings
+					}
+					if fnPkgPath(callee) == home {
+						if callsNothing(callee) || opaque(callee) {
+							record(cc)
+						} else {
+							visit(callee, depth+1)
+						}
+						continue
+					}
+					if !strings.HasPrefix(fnPkgPath(callee), modPath) {
+						continue // standard-library idioms are interchangeable (Cmp/Sign, Bytes/FillBytes, copy/append)
+					}
+					record(cc)
+				}
+			}
+		}
+	}
+	visit(fn, 0)
+	return out
+}
+
+// opaqueIn: functions that are a listed template variant in some member of the family are not
+// looked through in any member (their name is recorded instead), so that a legitimate variant of
+// one function does not show up as a difference in every caller.
+func opaqueIn(fam, pk string) func(*ssa.Function) bool {
+	opaqueOnce.Do(func() {
+		for k := range siblingVariants {
+			parts := strings.SplitN(k, "|", 3)
+			if len(parts) == 3 {
+				if opaqueNames[parts[0]] == nil {
+					opaqueNames[parts[0]] = map[string]bool{}
+				}
+				opaqueNames[parts[0]][parts[1]] = true
+			}
+		}
+	})
+	names := opaqueNames[fam]
+	return func(callee *ssa.Function) bool {
+		if len(names) == 0 {
+			return false
+		}
+		n := strings.TrimPrefix(funcKey(callee), pk+".")
+		return names[reGroup.ReplaceAllString(n, "${1}N$2")]
+	}
+}
+
+var (
+	opaqueOnce  sync.Once
+	opaqueNames = map[string]map[string]bool{}
+)
+
+var callsNothingMemo sync.Map
+
+func callsNothing(f *ssa.Function) bool {
+	if v, ok := callsNothingMemo.Load(f); ok {
+		return v.(bool)
+	}
+	r := true
+	for _, b := range f.Blocks {
+		for _, in := range b.Instrs {
+			switch x := in.(type) {
+			case *ssa.MakeClosure:
+				r = false
+			case ssa.CallInstruction:
+				if _, ok := x.Common().Value.(*ssa.Builtin); !ok {
+					r = false
+				}
+			}
+		}
+	}
+	callsNothingMemo.Store(f, r)
+	return r
+}
+
+// modsOf: the caller-visible objects fn may write: receiver, parameters, captured variables
+// (package-level variables are pools, caches and lazily built tables: C18 decides those).
+func modsOf(eff *Effects, fn *ssa.Function) map[string]bool {
+	out := map[string]bool{}
+	s := eff.Summary(fn)
+	for l := range s.Writes {
+		switch {
+		case l.Root < 0:
+			continue
+		case l.Root < len(fn.Params):
+			out["p"+paramIndex(fn.Params[l.Root])] = true
+		default:
+			k := l.Root - len(fn.Params)
+			if k < len(fn.FreeVars) {
+				out[normSibling("free:"+shortType(fn.FreeVars[k].Type()))] = true
+			}
+		}
+	}
+	return out
 }
 
 func clip(xs []string, n int) []string {
